@@ -34,7 +34,10 @@ RULE = ('histories of k<=6 raw edits on one live tree per corpus program, refuse
         'later `;` statement on the same line, later line); raw-mode slice puts (put_slice(..., raw=True)) to `_body`, orelse, '
         'finalbody, handlers and cases - every [start:stop) of templates with decorated defs/classes, docstrings and trailing '
         'comments x every replacement text, the replaced rectangle taken from CPython positions (first decorator .. end of the '
-        'last element with the trailing comment of a block); expression roots judged by ast.parse(mode="eval"); before EVERY step loc/bloc/pars() of every node are read (caches '
+        'last element with the trailing comment of a block); raw-mode slice puts to expression lists (List/Tuple/Set elts, Call '
+        'args) with the code given as an FST or an AST container whose source has trailing newlines / blank lines / comment '
+        'lines / a leading comment (expected text = the elements as CPython positions give them), and to f-string values with '
+        'raw=True and raw="auto" (the structured handler is not implemented, the raw fallback must be taken); expression roots judged by ast.parse(mode="eval"); before EVERY step loc/bloc/pars() of every node are read (caches '
         'populated), every put_src coordinate is spelled at random as plain / negative from the end of the source or of its '
         'own line / "end" / out of range, get_src with the same spelling is compared with plain Python slicing, replacement '
         'texts include equal-UTF-8-bytes/other-characters and equal-characters/other-bytes swaps of names and strings, raw node '
@@ -179,6 +182,7 @@ def _witness(r):
             **({'node_path': r['node_path']} if 'node_path' in r else {}),
             **({'to_path': r['to_path']} if 'to_path' in r else {}),
             **({'slice': r['slice']} if 'slice' in r else {}),
+            **({'opts': r['opts']} if r.get('opts') else {}),
             **({'history': r['history']} if r.get('history') else {}),
             **({'spelled': r['spelled']} if r.get('spelled') and r['spelled'] != r['rect'] else {})}
 
@@ -368,7 +372,11 @@ def _exec_witness(w, rec):
     elif w['op'] == 'raw-slice':
         cont = root.child_from_path(_astpath(w['node_path'])) if w['node_path'] else root
         r['node_path'], r['slice'] = w['node_path'], w['slice']
-        call = lambda: cont.put_slice(w['new'], w['slice'][1], w['slice'][2], w['slice'][0], raw=True)
+        o = w.get('opts') or {}
+        from fst import FST as _F
+        code = (_F(o['code'][1]) if o['code'][0] == 'fst' else ast.parse(o['code'][1].strip(), mode='eval').body) if o.get('code') else w['new']
+        r['opts'] = o
+        call = lambda: cont.put_slice(code, w['slice'][1], w['slice'][2], w['slice'][0], raw=o.get('raw', True))
     elif w['op'] == 'raw-put-to':
         node, to = root.child_from_path(_astpath(w['node_path'])), root.child_from_path(_astpath(w['to_path']))
         r['node_path'], r['to_path'] = w['node_path'], w['to_path']
@@ -522,7 +530,7 @@ def _histories(ctx):
 
 def _slice_family(ctx):
     """raw-mode slice puts to statement-list fields: every [start:stop) x every replacement text, one per fresh tree"""
-    edits = ops.slice_edits()
+    edits = ops.slice_edits() + ops.expr_slice_edits()
     res = pmap(ops.run_sequence, [(src, 0, 0, ['put_src'], [e]) for src, e, _ in edits])
     recs = []
     for (src, e, label), lst in zip(edits, res):
